@@ -73,6 +73,8 @@ def _eval_pair_here(job):
     rec = {"text": tuple(text), "bg": tuple(bg), "res": {}}
     for cfg in CFG:
         rec["res"][cfg] = run_one(tuple(text), tuple(bg), *cfg)
+    # strict mode once more, now *after* default and relaxed mode ran on the same pair in this process
+    rec["strict_again"] = {cfg: run_one(tuple(text), tuple(bg), *cfg) for cfg in CFG if cfg[0] == 0}
     return rec
 
 
@@ -228,6 +230,14 @@ def judge_c04(rec, chain_ok=True):
             if d_lib > 5.0 or d_or > 5.05:
                 out.append(dict(sig="bound/strict_mode_over_5", case=_case(rec, cfg), observed=[list(val), d_lib, d_or], expected=5.0,
                                 msg="strict mode moved %s on %s to %s: dE00 %.4f (library) / %.4f (reference) > 5.0" % (text, bg, val, d_lib, d_or)))
+        if cfg[0] == 0 and cfg in rec.get("strict_again", {}):
+            val2 = rec["strict_again"][cfg][0]
+            if is_rgb8(val2):
+                d_lib2, d_or2 = lib_de(text, val2), ciede2000.delta_e(text, val2)
+                if d_lib2 > 5.0 or d_or2 > 5.05:
+                    out.append(dict(sig="bound/strict_mode_over_5_after_other_modes", case=_case(rec, cfg), observed=[list(val2), d_lib2, d_or2], expected=5.0,
+                                    msg="strict mode on %s / %s returns %s (dE00 %.4f) when called after default and relaxed mode ran on the same pair; "
+                                        "alone it returns %s" % (text, bg, val2, d_lib2, val)))
         if not chain_ok:
             continue
         # (c) step chain: each logged search starts at the original or at a previous step's output; each output within its schedule
